@@ -49,7 +49,24 @@ def gauge(m):
     gY2 = Fr(3, 5) * g1 * g1
     return g1, g2, vd, vu, gY2
 
-@obligation('C04.sfermion_mass_matrices', fns=[(ME, CLS + '::get_mass_matrix_' + s[0]) for s in SFERMIONS] + [(ME, CLS + '::get_mass_matrix_' + s[0]) for s in SNEUTRINOS])
+def replay_matrix_entry(model, wd):
+    """real get_mass_matrix_X()(i,j) at the counterexample's Lagrangian parameters against the value the contract demands there"""
+    from gm2v import fidelity
+    goal = (model or {}).get('_goal', '')
+    parts = goal.split('.')
+    nm = parts[2] if len(parts) > 2 else ''
+    ent = parts[3] if len(parts) > 3 else ''
+    if nm in ('SveL', 'SvmL', 'SvtL', 'VZ', 'VWm', 'Glu') or nm.startswith('F'):
+        expr = 'm.get_mass_matrix_%s()' % nm
+    else:
+        ij = {'LL': (0, 0), 'RR': (1, 1), 'LR': (0, 1)}.get(ent)
+        if ij is None:
+            mm = __import__('re').match(r'e?(\d)(\d)', ent)
+            ij = (int(mm.group(1)), int(mm.group(2))) if mm else (0, 0)
+        expr = 'std::real(m.get_mass_matrix_%s()(%d,%d))' % (nm, ij[0], ij[1])
+    return fidelity.replay_equality(wd, 'MSSMNoFV_onshell', model, expr)
+
+@obligation('C04.sfermion_mass_matrices', replay=replay_matrix_entry, fns=[(ME, CLS + '::get_mass_matrix_' + s[0]) for s in SFERMIONS] + [(ME, CLS + '::get_mass_matrix_' + s[0]) for s in SNEUTRINOS])
 def _(ctx):
     """ensures (for ALL real Lagrangian parameters): every entry of the nine 2x2 sfermion mass matrices and the three sneutrino masses
     squared equals the Lagrangian expression above; the matrices are symmetric.  One generic spec with the generation index g covers all
@@ -77,7 +94,7 @@ def _(ctx):
         ctx.prove(nm, sym.axioms, z3real(M) == m.f['ml2'].get(g, g) + cos2b_mz2 / 2, check_vacuity=False)
     ctx.merge_rules(it)
 
-@obligation('C04.gauge_fermion_ino_matrices', fns=[(ME, CLS + '::get_mass_matrix_' + n) for n in ('VZ', 'VWm', 'Chi', 'Cha', 'Fd', 'Fs', 'Fb', 'Fu', 'Fc', 'Ft', 'Fe', 'Fm', 'Ftau', 'Glu')])
+@obligation('C04.gauge_fermion_ino_matrices', replay=replay_matrix_entry, fns=[(ME, CLS + '::get_mass_matrix_' + n) for n in ('VZ', 'VWm', 'Chi', 'Cha', 'Fd', 'Fs', 'Fb', 'Fu', 'Fc', 'Ft', 'Fe', 'Fm', 'Ftau', 'Glu')])
 def _(ctx):
     """ensures: MZ^2 = (g2^2 + 3/5 g1^2)(vd^2+vu^2)/4, MW^2 = g2^2 (vd^2+vu^2)/4, fermion masses y_f v_f/sqrt2, gluino mass M3,
     neutralino matrix (bino, wino, Hd, Hu basis) and chargino matrix in SLHA convention, entry by entry; trace and determinant relations follow"""
